@@ -410,7 +410,8 @@ def copyValue (E : Env) (mode : CopyMode) (n : Nat) (v : CVal) : Except Exc (CVa
   | .deep => deepcopyV n v
 
 /-- One iteration of the loop of `copy_traits`: any exception is swallowed by
-the bare `except:` and the name is reported as unassignable (slot untouched). -/
+the bare `except:` and the name is reported as unassignable (slot untouched).
+`all` = `copy_traits(traits="all")`: transient traits are copied too. -/
 def cloneSlot (E : Env) (oSrc oDst : Nat) (arg : Option CopyMode) (all : Bool) (n : Nat) (src : Slot) :
     Slot × Slot × Nat :=
   let dst : Slot := ⟨src.decl, none⟩
@@ -432,14 +433,13 @@ def cloneL (E : Env) (oSrc oDst : Nat) (arg : Option CopyMode) (all : Bool) :
     let rs := cloneL E oSrc oDst arg all r.2.2 sls
     (r.1 :: rs.1, r.2.1 :: rs.2.1, rs.2.2)
 
-/-- has_traits.py:1583-1586: `clone_traits` hands `copy_traits` the list of copyable names;
-`copy_traits` takes an EMPTY list to mean "all" (`len(traits) == 0`), so an object none of whose
-traits is copyable gets every trait copied, transient ones included. -/
-def copiesAll (slots : List Slot) : Bool := !(slots.any (fun sl => sl.decl.copyable))
-
-/-- `obj.clone_traits(copy=arg)`. -/
+/-- `obj.clone_traits(copy=arg)`: `copy_traits` over the copyable names of the
+source (`all = false`).  When no trait is copyable the list is empty and
+`copy_traits` - which reads an empty list as "all" - is not called at all
+(the `if len(traits) > 0` of the F72 repair), which is what `cloneL … false`
+computes: every slot is skipped. -/
 def cloneTraits (E : Env) (s : Obj) (o' : Nat) (arg : Option CopyMode) (n : Nat) : Copied :=
-  let r := cloneL E s.oid o' arg (copiesAll s.slots) n s.slots
+  let r := cloneL E s.oid o' arg false n s.slots
   ⟨⟨o', r.1⟩, ⟨s.oid, r.2.1⟩, r.2.2⟩
 
 /-- `copy.deepcopy(obj)`: `__deepcopy__` calls `clone_traits` with
